@@ -133,6 +133,9 @@ def describe(b):
 
 
 # ------------------------------------------------------------------------------- decoders
+DECODER_FNS = set()
+
+
 def check_decoder(F, rep, ent):
     q = ent["fn"]
     fn = F.fn(q)
@@ -152,6 +155,12 @@ def check_decoder(F, rep, ent):
             assume = (("var", T.param(2), cname),)
             endian, data, base, cursor_lv = T.param(1), T.param(4), T.deref(T.param(3)), (("M", T.param(3)), ())
         an = analyze_fn(F, fn, assume)
+        # a decoder that delegates a prefix of its structure to a sibling decoder (Rela = Rel + addend): the sibling is described by
+        # cases here, so that the reads it performs on behalf of this decoder are judged against this decoder's layout
+        sib = {c.callee_qual for c in an.calls() if c.callee_qual != q and c.callee_qual in DECODER_FNS}
+        if sib:
+            from ..engine import Program
+            an = Program(F, dissolve=sib).analysis(fn, assume)
         leaves = an.ret_leaves()
         if leaves is None:
             rep.bad("decode", key, w, "UNRECOGNISED: cannot enumerate outcomes of %s" % q)
@@ -222,7 +231,7 @@ def check_decoder(F, rep, ent):
                     "%s for %s reads %s; the ABI layout is %s (size %d)" % (q, cname, sorted(reads), sorted(want_reads), cls["size"]))
         # ---- cursor advance
         if cursor_lv is not None:
-            cur = an.read(st, cursor_lv)
+            cur = an.simp(an.read(st, cursor_lv), st.facts)
             rep.require(cur is T.bin("Add", base, T.const("usize", cls["size"]), "usize"), "decode-size", key + ":cursor", w,
                         "consumes exactly %d bytes" % cls["size"], "%s for %s leaves the cursor at %s, ABI size is %d" % (q, cname, pp(cur), cls["size"]))
             sf = F.fn(q.replace(">::parse_at", ">::size_for"))
@@ -313,6 +322,8 @@ def run(ctx, rep):
     F = ctx.facts()
     ref = json.load(open(os.path.join(VERIF, "ref", "decode_reference.json")))
     n = 0
+    DECODER_FNS.clear()
+    DECODER_FNS.update(e["fn"] for e in ref["structs"] if e["adt"] is not None)
     for ent in ref["structs"]:
         n += check_decoder(F, rep, ent)
     rep.floor("decode", "decoder x class success paths", n, 38)
